@@ -749,7 +749,7 @@ def _maintask(c):
         if fn == 'recalc':
             if g['in_reset']:
                 return [('after_a_clock_problem_every_registered_block_is_recalculated_for_the_current_time', Rec.a0(r) == to_val(st.env['nowdt'], st))]
-            return [('scheduled_recalculation_happens_just_after_its_time', And(Rec.a0(r) == to_val(st.env['nowdt'], st), ahead <= 0, ahead >= -2.5)),
+            return [('qf:scheduled_recalculation_happens_just_after_its_time', And(Rec.a0(r) == to_val(st.env['nowdt'], st), ahead <= 0, ahead >= -2.5)),
                     ('scheduled_recalculation_is_for_the_blocks_registered_for_that_time', registered(View(st), me, wake, Val.ref(Rec.recv(r))))]
         return [('no_other_call', BoolVal(False))]
     c.expect_trace(expected, None, normal_len=None, predicate=True)
@@ -767,7 +767,8 @@ def inv_maintask(lc):
     arr, n = seq_of(tt, s)
     tlen = to_val(lc.local('tlen'), s)
     rl = st.f('_value', reload)
-    out.append(('timetable_loaded_or_reload_pending', Or(rl, And(n >= 24, tlen == Val.I(n),
+    is_list = Val.is_T(tt.z) if isinstance(tt, ZV) and tt.kind == 'val' else BoolVal(True)
+    out.append(('timetable_loaded_or_reload_pending', Or(rl, And(is_list, n >= 24, tlen == Val.I(n),
                                                               Or(idx == Val.VNone, And(Val.is_I(idx), 0 <= Val.i(idx), Val.i(idx) < n))))))
     out.append(('timetable_entries_are_times', Or(rl, ForAll([i], Implies(And(0 <= i, i < n), time_ok_v(arr[i]))))))
     out.append(('timetable_is_strictly_increasing', Or(rl, ForAll([i, j], Implies(And(0 <= i, i < j, j < n), tod(arr[i]) < tod(arr[j]))))))
@@ -795,8 +796,8 @@ def inv_steps(lc):
             ('flags_clear', And(reload != reset, Not(st.f('_value', reset)), Not(st.f('_value', reload)),
                                 reload == as_kind(lc.entry_local('reload'), Ref(), e), reset == as_kind(lc.entry_local('reset'), Ref(), e))),
             ('the_clock_reading', And(datetime_ok(nowdt), nowt == dt_time_of(nowdt), time_ok_v(nowt))),
-            ('the_wakeup_time', And(time_ok_v(wake), Val.is_I(idx), 0 <= Val.i(idx), Val.i(idx) < n, wake == arr[Val.i(idx)],
-                                    wake == to_val(lc.entry_local('wakeup'), e), idx == to_val(lc.entry_local('index'), e))),
+            ('the_wakeup_time_is_a_time', And(time_ok_v(wake), wake == to_val(lc.entry_local('wakeup'), e), idx == to_val(lc.entry_local('index'), e))),
+            ('the_wakeup_time', And(Val.is_I(idx), 0 <= Val.i(idx), Val.i(idx) < n, wake == arr[Val.i(idx)])),
             ('timetable', And(n >= 24, tlen == Val.I(n), arr == seq_of(lc.entry_local('timetable'), e)[0], n == seq_of(lc.entry_local('timetable'), e)[1],
                               ForAll([i], Implies(And(0 <= i, i < n), time_ok_v(arr[i]))),
                               ForAll([i, j], Implies(And(0 <= i, i < j, j < n), tod(arr[i]) < tod(arr[j])))))]
@@ -826,3 +827,37 @@ def verify_maintask(run):
                calls={'for:for step in range(3)': for_step, 'Flag': new_flag, 'sorted': mt_sorted, 'self.dtnow': mt_dtnow, 'nowdt.time': now_time, 'bisect.bisect_left': mt_bisect,
                       'time.sleep': mt_time_sleep, 'set.union': mt_all_blocks, 'set().union': mt_set_union0, 'list': mt_list,
                       'blk.recalc': mt_recalc, 'hasattr': lambda ex, e, st: [(st, PConst(True))], 'nowdt.isoweekday': now_isoweekday})
+
+
+# ---- _Interval.range_endpoints --------------------------------------------------------------------------------------------------------------------------
+def endpoint_of(S, iv_obj, x):
+    iv = S.f('_interval', iv_obj); k = Val.tk(iv); j = Int('j!ep')
+    pair = lambda jj: Val.tk(tup_item(k, jj))
+    return Exists([j], And(0 <= j, j < tup_len(k), Or(norm_key(tup_item(pair(j), 0)) == x, norm_key(tup_item(pair(j), 1)) == x)))
+
+
+@contract('_Interval.range_endpoints', qual='edzed.blocklib.timeinterval:_Interval.range_endpoints', modifies=(), self_cls='TimeInterval')
+def _range_endpoints(c):
+    me = c.z('self')
+    c.requires('list_of_pairs', interval_wf(c.S, me))
+    iv = c.pre('_interval', me); k = Val.tk(iv); j = Int('j!re')
+    c.requires('endpoints_are_hashable', ForAll([j], Implies(And(0 <= j, j < tup_len(k)),
+               And(hashable(tup_item(Val.tk(tup_item(k, j)), 0)), hashable(tup_item(Val.tk(tup_item(k, j)), 1))))))
+    x = Const('x!re', Val)
+    r = c.rv
+    c.ensures('exactly_the_start_and_stop_values', And(Val.is_FS(r), ForAll([x], fs_c(Val.fk(r))[x] == endpoint_of(c.S, me, x))))
+
+
+def inv_endpoints(lc):
+    me = as_kind(lc.pre.args['self'], Ref())
+    iv = lc.pre.f('_interval', me); k = Val.tk(iv); j = Int('j!ie'); x = Const('x!ie', Val)
+    cur = lc.local('enpoints')
+    arr = cur.arr if isinstance(cur, PSet) else fs_c(Val.fk(to_val(cur, lc.st.st)))
+    pair = lambda jj: Val.tk(tup_item(k, jj))
+    return [('the_endpoints_of_the_visited_ranges', ForAll([x], arr[x] == Exists([j], And(0 <= j, j < lc.i,
+             Or(norm_key(tup_item(pair(j), 0)) == x, norm_key(tup_item(pair(j), 1)) == x)))))]
+
+
+def verify_range_endpoints(run):
+    run.verify('_Interval.range_endpoints', cls='TimeInterval', invariants={'for (start, stop) in self._interval': inv_endpoints},
+               calls={'set': lambda ex, e, st: [(st, PSet(K(Val, BoolVal(False)), 'val'))]})
